@@ -495,4 +495,6 @@ def run(ck, prog):
     from . import c06, c08
     c06.rule_r1_sync(ck, prog)
     c08.rule_r2(ck, prog)
+    ck.doc('C06.R9', '(shared rule, see C06) folding collection intervals into one map accumulates (merge with the found entry, never overwrite it)', 2)
+    c06.rule_r9(ck, prog)
     return {}
